@@ -1,7 +1,7 @@
 from props import P
 
 CFG = P(
-        harness=["harness/C10.cc"], srcs=["Hash.cc", "Strings.cc", "Filesystem.cc", "Process.cc", "Time.cc", "Encoding.cc"],
+        harness=["harness/C10.cc", "harness/C10_r2.cc"], harness_deps=["harness/C10_common.hh"], srcs=["Hash.cc", "Strings.cc", "Filesystem.cc", "Process.cc", "Time.cc", "Encoding.cc"],
         ldflags=["-lcrypto"],
         oracle="C10",
         rule="a case is one (function, length, fill pattern) triple or one (function, input, split point) triple; triples are distinct by construction; every case is non-trivial (a full digest / checksum is computed by the library and by the independent implementation and compared)",
